@@ -113,10 +113,14 @@ func newEmptyDoc(collectionDefinition CollectionDefinition) (*Document, error) {
 }
 
 // NewDocWithID creates a new Document with a specified key.
+//
+// The document stands for one that already exists: default values are for documents being created and are
+// not applied, a field that is not set afterwards reads as nil.
 func NewDocWithID(docID DocID, collectionDefinition CollectionDefinition) (*Document, error) {
-	doc, err := newEmptyDoc(collectionDefinition)
-	if err != nil {
-		return nil, err
+	doc := &Document{
+		fields:               make(map[string]Field),
+		values:               make(map[Field]*FieldValue),
+		collectionDefinition: collectionDefinition,
 	}
 	doc.id = docID
 	return doc, nil
